@@ -679,6 +679,11 @@ fn exec_call(b: &Built, t: usize, ci: usize, ca: &ProgItem, key: &mut Option<Thr
 		t, ci, ca.api, ca.c, ca.key, ca.rel
 	));
 	let obj = b.colls[ca.c - 1];
+	if matches!(obj, CollObj::Invalid) {
+		// the checked constructor refused this collection: nothing to call
+		sched::log(format!("{{\"e\":\"skip\",\"t\":{},\"ci\":{}}}", t, ci));
+		return true;
+	}
 	let api = ca.api.as_str();
 	let r = catch_unwind(AssertUnwindSafe(|| {
 		if is_scoped(api) {
